@@ -9,7 +9,7 @@ from runner import Opts, run_many
 
 NAMES = {"Loc": "LocCls", "Oth": "OthCls", "Col": "ColEnum", "TV": "TVar"}
 HEADER = '''from __future__ import annotations
-from typing import Any, Callable, Collection, Generic, Literal, Mapping, Optional, Sequence, TypeVar, Union
+from typing import Any, Callable, Collection, Final, Generic, Literal, Mapping, Optional, Sequence, TypeVar, Union
 from enum import Enum
 from {pkg}.othmod import OthCls
 
@@ -27,40 +27,58 @@ class ColEnum(Enum):
 class GenCls(Generic[TVar]):
     pass
 
+
+def _anyv() -> Any:
+    ...
+
 '''
 OTH = "class OthCls:\n    pass\n"
 
 
-def py(t: dict) -> str:
+def py(t: dict, defs: list | None = None, uid: str = "") -> str:
+    """Python spelling of a term; the module-level alias definitions it needs are appended to `defs`."""
+    defs = [] if defs is None else defs
     k, a = t["k"], t["a"]
+
+    def rec(x):
+        return py(x, defs, uid)
+    if k == "Alias":
+        inner = rec(a[0])      # an alias is defined before the alias that uses it
+        name = f"Al{uid}x{len(defs)}"
+        defs.append(f"{name} = {inner}")
+        return name
+    if k == "VarTuple":
+        return f"tuple[{rec(a[0])}, ...]"
     if k in ("int", "str", "bool", "float", "None", "Any"):
         return k
     if k in NAMES:
         return NAMES[k]
     if k in ("list", "Sequence", "Collection", "set", "Optional", "dict", "Mapping", "tuple", "Union"):
-        return f"{k}[{', '.join(py(x) for x in a)}]"
+        return f"{k}[{', '.join(rec(x) for x in a)}]"
     if k == "OrNone":
-        return f"{py(a[0])} | None"
+        return f"{rec(a[0])} | None"
     if k == "Or":
-        return " | ".join(py(x) for x in a)
+        return " | ".join(rec(x) for x in a)
     if k == "Gen":
-        return f"GenCls[{py(a[0])}]"
+        return f"GenCls[{rec(a[0])}]"
     if k == "Literal":
         vals = []
         for ty, v in t["l"]:
             vals.append({"str": lambda: f'"{v}"', "int": lambda: v, "bool": lambda: v.capitalize(), "none": lambda: "None"}[ty]())
         return f"Literal[{', '.join(vals)}]"
     if k == "Callable":
-        return f"Callable[[{', '.join(py(x) for x in a[:-1])}], {py(a[-1])}]"
+        return f"Callable[[{', '.join(rec(x) for x in a[:-1])}], {rec(a[-1])}]"
     raise ValueError(k)
 
 
 def concretise(terms, pkg) -> str:
     out = [HEADER.format(pkg=pkg)]
     for t in terms:
-        i, s = t["id"], py(t)
+        i, defs = t["id"], []
+        s = py(t, defs, str(i))
+        out.append("\n".join(defs) + "\n")
         out.append(f"def fp{i}(x: {s}): ...\n\n\ndef fr{i}() -> {s}: ...\n\n\n"
-                   f"class K{i}:\n    ca: {s}\n\n    def __init__(self, x: {s}):\n        self.ia: {s} = x\n\n    @property\n    def pr(self) -> {s}:\n        ...\n\n\n"
+                   f"class K{i}:\n    ca: {s}\n\n    def __init__(self, x: {s}):\n        self.ia: {s} = x\n        self.fi: Final[{s}] = x\n\n    cf: Final[{s}] = _anyv()\n\n    @property\n    def pr(self) -> {s}:\n        ...\n\n\n"
                    # the same parameter seen through a private base class in two public subclasses (one type value, rendered twice)
                    f"class _PB{i}:\n    def inh(self, x: {s}):\n        ...\n\n\nclass PSa{i}(_PB{i}):\n    pass\n\n\nclass PSb{i}(_PB{i}):\n    pass\n\n")
     return "\n".join(out)
@@ -90,14 +108,14 @@ def observe(t, stubs: Stubs) -> dict:
             add("ctorparam", [type_term(c.params[0]["type"])])
         else:
             add("ctorparam", [], True)
-        for nm, label in (("ca", "classattr"), ("ia", "instattr"), ("pr", "property")):
+        for nm, label in (("ca", "classattr"), ("ia", "instattr"), ("pr", "property"), ("cf", "final-classattr"), ("fi", "final-instattr")):
             m = member(c, nm, "attr")
             if m is None:
                 add(label, [], True)
             else:
                 add(label, [type_term(m.type)])
     else:
-        for label in ("ctorparam", "classattr", "instattr", "property"):
+        for label in ("ctorparam", "classattr", "instattr", "property", "final-classattr", "final-instattr"):
             add(label, [], True)
     for cname, label in ((f"PSa{i}", "inherited-first"), (f"PSb{i}", "inherited-second")):
         kk = stubs.top(cname)
@@ -140,7 +158,9 @@ def main(v: Verdict) -> None:
     for b in bad:
         o = by_id.get(b.get("subject"))
         if o:
-            b["annotation"] = py(o["sc"])
+            defs: list = []
+            ann = py(o["sc"], defs, str(o["id"]))
+            b["annotation"] = "; ".join([*defs, ann])
     v.add_bad(bad)
     v.samples = [{"annotation": py(o["sc"]), "observed": o["obs"]} for o in obs[:: max(1, len(obs) // 3)]][:3]
     v.extra["scenarios_generated"] = len(terms)
